@@ -17,10 +17,12 @@ import (
 	"encoding/json"
 	"fmt"
 	"io"
+	"net"
 	"sort"
 	"strings"
 	"sync"
 	"testing"
+	"time"
 
 	"github.com/andybalholm/brotli"
 	"github.com/klauspost/compress/zstd"
@@ -42,6 +44,14 @@ type c03Case struct {
 	Pipe   bool     // both requests delivered by one Read (pipelined) instead of one Read each
 	L      int      // number of bytes a body stream / stream writer yields
 	RK     string   // stream reader flavour: "plain" (io.Reader only) or "bytes" (*bytes.Reader, has WriteTo)
+	// BufRel k = 1|2: Server.WriteBufferSize is not Buf but (length of the header block of response k) + Buf, so that
+	// the write buffer runs full - and is flushed to the connection - Buf bytes after that header block.
+	BufRel int `json:",omitempty"`
+	// Intr: name of the concurrent pool user (c03Intruders) that is served on the same Server, on a connection of its
+	// own, in the middle of every call the server makes to this connection's Write. "" = nobody else is active.
+	// (The body stream's Read is not used as a second call-out point: under CompressHandler it runs on a goroutine of
+	// its own, and the harness stays single-threaded.)
+	Intr string `json:",omitempty"`
 }
 
 func (c c03Case) key() string { b, _ := json.Marshal(c); return string(b) }
@@ -64,6 +74,8 @@ func (c *c03Case) hash() uint64 {
 	mix(c.M1 + c.M2 + c.V1 + c.V2 + c.RK)
 	h = (h ^ uint64(c.Buf)) * 1099511628211
 	h = (h ^ uint64(c.L)) * 1099511628211
+	h = (h ^ uint64(c.BufRel)) * 1099511628211
+	mix(c.Intr)
 	if c.Gzip {
 		h = (h ^ 1) * 1099511628211
 		mix(c.AE)
@@ -295,9 +307,94 @@ func c03Interpret(prog []string, c *c03Case) *c03Model {
 // running one case against the real server
 
 type c03Servers struct {
-	mu  sync.Mutex
-	srv map[int]*Server
-	cur *c03Run
+	mu   sync.Mutex
+	srv  map[int]*Server
+	cur  *c03Run
+	hlen map[string][2]int // header block lengths of both responses of a case (key: the case with canonical buffer, alone)
+	iref map[string]*c03IntrRef
+}
+
+// c03IntrRef: what a concurrent user's connection looks like when it is served alone on the same Server (judged once
+// by the full oracle); the bytes of every later run are compared with it (Date values masked) and only a run that
+// differs goes through the oracle again.
+type c03IntrRef struct {
+	out   []byte
+	finds []c03Finding
+	terr  string
+}
+
+func c03MaskDate(b []byte) []byte {
+	out := append([]byte(nil), b...)
+	for off := 0; ; {
+		i := bytes.Index(out[off:], []byte("\r\nDate: "))
+		if i < 0 {
+			return out
+		}
+		j := off + i + 8
+		for j < len(out) && out[j] != '\r' {
+			out[j] = 'D'
+			j++
+		}
+		off = j
+	}
+}
+
+// c03EqualMasked: is b, with its Date values masked, equal to the masked reference?
+func c03EqualMasked(b, ref []byte) bool {
+	if len(b) != len(ref) {
+		return false
+	}
+	for off := 0; ; {
+		i := bytes.Index(b[off:], []byte("\r\nDate: "))
+		if i < 0 {
+			return bytes.Equal(b[off:], ref[off:])
+		}
+		j := off + i + 8
+		if !bytes.Equal(b[off:j], ref[off:j]) {
+			return false
+		}
+		for j < len(b) && b[j] != '\r' {
+			if ref[j] != 'D' {
+				return false
+			}
+			j++
+		}
+		off = j
+	}
+}
+
+func c03ServeIntruder(ss *c03Servers, srv *Server, name string, buf int) (*c03Case, *c03Run) {
+	ic := c03Intruders[name]
+	ic.Buf = buf
+	ae := c03AcceptEncoding(&ic)
+	iconn := vnet.NewConn(c03Request(ic.M1, ic.V1, ae), c03Request(ic.M2, ic.V2, ae))
+	irun := &c03Run{c: &ic, conn: iconn}
+	saved := ss.cur
+	ss.cur = irun
+	srv.ServeConn(iconn) //nolint:errcheck
+	ss.cur = saved
+	return &ic, irun
+}
+
+func (ss *c03Servers) intrRef(srv *Server, name string, buf int) *c03IntrRef {
+	key := fmt.Sprintf("%s/%d", name, buf)
+	if ref := ss.iref[key]; ref != nil {
+		return ref
+	}
+	ref := &c03IntrRef{}
+	if _, ok := c03Intruders[name]; !ok {
+		ref.terr = fmt.Sprintf("unknown concurrent user %q", name)
+	} else {
+		ic, irun := c03ServeIntruder(ss, srv, name, buf)
+		ires := &c03Result{}
+		c03Oracle(ic, irun, ires)
+		ref.out, ref.finds, ref.terr = c03MaskDate(irun.conn.Output()), ires.finds, ires.toolErr
+	}
+	if ss.iref == nil {
+		ss.iref = map[string]*c03IntrRef{}
+	}
+	ss.iref[key] = ref
+	return ref
 }
 
 type c03Run struct {
@@ -309,6 +406,71 @@ type c03Run struct {
 	// abandoned: contexts the server left behind on the timeout path; the harness resets their responses afterwards so
 	// that stream writers installed before the timeout do not pile up as blocked goroutines
 	abandoned []*RequestCtx
+	// re-entrancy (c.Intr != ""): what the concurrent pool user's own responses looked like, how often it ran
+	intrFinds   []c03Finding
+	intrToolErr string
+	intrusions  int
+	inIntr      bool
+}
+
+// c03HookConn is the scripted connection with a hook in front of every Write: the hook runs while the server is inside
+// its call to the connection, *before* the bytes handed over are recorded - the position of a peer that is slow to take
+// them. Whatever the hook does (serve somebody else on the same Server) is something any other goroutine may do at that
+// moment, so nothing of it may show in this connection's bytes.
+type c03HookConn struct {
+	*vnet.Conn
+	hook func()
+}
+
+func (c *c03HookConn) Write(p []byte) (int, error) {
+	c.hook()
+	return c.Conn.Write(p)
+}
+
+// c03Intruders: the concurrent users of the pooled objects of the response writer (chunk-size scratch buffers, copy
+// buffers, bufio writers, contexts, compressors, byte buffers). Each is a complete connection of its own (one request,
+// answered with Connection: close), judged by the same oracle. The two chunked ones use stream sizes whose hex digits differ from each other in every
+// position, so whichever digits somebody else's scratch buffer holds, at least one of them changes them.
+var c03Intruders = map[string]c03Case{
+	"chunked-abc": {P1: []string{"stream-chunked", "trailer", "hand-close"}, P2: []string{"body-set"}, M1: "GET", M2: "GET", V1: "1.1", V2: "1.1", L: 0xabc, RK: "plain"},
+	"chunked-543": {P1: []string{"cookie-a", "stream-chunked", "hand-close"}, P2: []string{"body-set"}, M1: "POST", M2: "GET", V1: "1.1", V2: "1.1", L: 0x543, RK: "bytes"},
+	"mixed": {P1: []string{"status-404", "cookie-b", "body-set-long", "hand-close"}, P2: []string{"body-set"}, M1: "GET", M2: "GET", V1: "1.1", V2: "1.1",
+		L: 300, RK: "plain", Gzip: true},
+}
+
+var c03IntruderNames = []string{"chunked-abc", "chunked-543", "mixed"}
+
+// c03Intrude serves the intruder's connection on srv, from inside a call-out of the connection of run.
+func c03Intrude(ss *c03Servers, srv *Server, run *c03Run, buf int, ref *c03IntrRef) {
+	if run.inIntr || ref.terr != "" {
+		return
+	}
+	run.inIntr = true
+	ic, irun := c03ServeIntruder(ss, srv, run.c.Intr, buf)
+	run.inIntr = false
+	run.intrusions++
+	if c03EqualMasked(irun.conn.Out.Bytes(), ref.out) && irun.conn.Closed > 0 {
+		return // fast path: byte for byte what it is when served alone
+	}
+	ires := &c03Result{}
+	c03Oracle(ic, irun, ires)
+	if ires.toolErr != "" && run.intrToolErr == "" {
+		run.intrToolErr = "concurrent connection: " + ires.toolErr
+	}
+	run.addIntrFinds(ires.finds) // (none: a different but equally valid serialisation, e.g. other chunk boundaries of a compressed stream)
+}
+
+func (run *c03Run) addIntrFinds(finds []c03Finding) {
+next:
+	for _, f := range finds {
+		sym := "concurrent-connection:" + f.sym
+		for _, g := range run.intrFinds {
+			if g.sym == sym {
+				continue next
+			}
+		}
+		run.intrFinds = append(run.intrFinds, c03Finding{sym, fmt.Sprintf("the connection served concurrently (%s, during call-out %d of this connection): %s", run.c.Intr, run.intrusions, f.what)})
+	}
 }
 
 type c03NullLogger struct{}
@@ -365,6 +527,12 @@ func c03AcceptEncoding(c *c03Case) string {
 	return c.AE
 }
 
+var (
+	c03ZstdOnce sync.Once
+	c03ZstdDec  *zstd.Decoder
+	c03ZstdErr  error
+)
+
 // c03Decode undoes the content coding a response declares, with decoders that are not fasthttp's own code.
 func c03Decode(enc string, b []byte) ([]byte, error) {
 	var rd io.Reader
@@ -384,12 +552,13 @@ func c03Decode(enc string, b []byte) ([]byte, error) {
 	case "br":
 		rd = brotli.NewReader(bytes.NewReader(b))
 	case "zstd":
-		zr, err := zstd.NewReader(bytes.NewReader(b))
-		if err != nil {
-			return nil, err
+		// one shared klauspost decoder, whole-buffer interface (a stream decoder per response costs a goroutine and a
+		// window allocation each time)
+		c03ZstdOnce.Do(func() { c03ZstdDec, c03ZstdErr = zstd.NewReader(nil) })
+		if c03ZstdErr != nil {
+			return nil, c03ZstdErr
 		}
-		defer zr.Close()
-		rd = zr
+		return c03ZstdDec.DecodeAll(b, nil)
 	default:
 		return nil, fmt.Errorf("unknown content coding %q", enc)
 	}
@@ -426,6 +595,8 @@ type c03Result struct {
 	nresp                                     int
 	mismatch, chunked, nobody, gzipped, close bool
 	toolErr                                   string
+	intrusions                                int  // how often the concurrent pool user was served inside this connection's call-outs
+	straddle                                  bool // a flush to the connection happened between two digits of a chunk-size line
 }
 
 // c03Exec runs one case; a panic escaping from the server or a handler call is a finding of its own class (the
@@ -435,7 +606,7 @@ func c03Exec(ss *c03Servers, c *c03Case) (res *c03Result) {
 		if p := recover(); p != nil {
 			class, detail := c03PanicClass(p)
 			res = &c03Result{finds: []c03Finding{{class, "the library panicked while serving the case: " + detail}}}
-			ss.srv = nil
+			ss.srv, ss.iref = nil, nil
 		}
 	}()
 	return c03ExecInner(ss, c)
@@ -449,16 +620,102 @@ func c03ExecInner(ss *c03Servers, c *c03Case) *c03Result {
 	} else {
 		conn = vnet.NewConn(r1, r2)
 	}
+	buf := c.Buf
+	if c.BufRel != 0 {
+		buf = max(1, c03HeaderLen(ss, c)+c.Buf)
+	}
 	run := &c03Run{c: c, conn: conn}
 	ss.cur = run
-	srv := ss.get(c.Buf)
-	srv.ServeConn(conn) //nolint:errcheck
+	srv := ss.get(buf)
+	var nc net.Conn = conn
+	if c.Intr != "" {
+		ref := ss.intrRef(srv, c.Intr, buf)
+		ss.cur = run
+		run.intrToolErr = ref.terr
+		run.addIntrFinds(ref.finds)
+		nc = &c03HookConn{Conn: conn, hook: func() { c03Intrude(ss, srv, run, buf, ref) }}
+	}
+	srv.ServeConn(nc) //nolint:errcheck
 	for _, ctx := range run.abandoned {
 		ctx.Response.Reset()
 	}
-	res := &c03Result{}
+	res := &c03Result{intrusions: run.intrusions}
 	c03Oracle(c, run, res)
+	res.finds = append(res.finds, run.intrFinds...)
+	if res.toolErr == "" {
+		res.toolErr = run.intrToolErr
+	}
 	return res
+}
+
+// c03HeaderLen measures the header block of response c.BufRel: the same case is served alone, one Read per request,
+// with the canonical write buffer, and the block is delimited on the wire (the position where handler k was entered
+// up to the first empty line). 0 if that response does not exist.
+func c03HeaderLen(ss *c03Servers, c *c03Case) int {
+	probe := *c
+	probe.Buf, probe.BufRel, probe.Intr, probe.Pipe = c03Canonical().Buf, 0, "", false
+	key := probe.key()
+	if v, ok := ss.hlen[key]; ok {
+		return v[c.BufRel-1]
+	}
+	conn := vnet.NewConn(c03Request(c.M1, c.V1, c03AcceptEncoding(c)), c03Request(c.M2, c.V2, c03AcceptEncoding(c)))
+	run := &c03Run{c: &probe, conn: conn}
+	ss.cur = run
+	ss.get(probe.Buf).ServeConn(conn) //nolint:errcheck
+	for _, ctx := range run.abandoned {
+		ctx.Response.Reset()
+	}
+	out := conn.Output()
+	var v [2]int
+	for k := 0; k < 2 && k < run.calls; k++ {
+		if start := run.outMark[k]; start <= len(out) {
+			if i := bytes.Index(out[start:], []byte("\r\n\r\n")); i >= 0 {
+				v[k] = i + 4
+			}
+		}
+	}
+	if ss.hlen == nil || len(ss.hlen) > 4096 {
+		ss.hlen = map[string][2]int{}
+	}
+	ss.hlen[key] = v
+	return v[c.BufRel-1]
+}
+
+// c03FlushInsideChunkSize: did the server hand bytes to the connection between two digits of a chunk-size line of the
+// chunked body out[from:to]? (anti-vacuity counter of the re-entrant cases)
+func c03FlushInsideChunkSize(out []byte, from, to int, events []vnet.Event) bool {
+	p := from
+	for p < to {
+		q := p
+		size := 0
+		for q < to && (out[q] >= '0' && out[q] <= '9' || out[q] >= 'a' && out[q] <= 'f' || out[q] >= 'A' && out[q] <= 'F') {
+			d := int(out[q] | 0x20)
+			if d >= 'a' {
+				d -= 'a' - 10
+			} else {
+				d -= '0'
+			}
+			size = size<<4 | d
+			q++
+		}
+		if q == p {
+			return false
+		}
+		for _, e := range events {
+			if e.Op == "write" && e.Out > p && e.Out < q {
+				return true
+			}
+		}
+		if size == 0 {
+			return false
+		}
+		eol := bytes.Index(out[q:to], []byte("\r\n"))
+		if eol < 0 {
+			return false
+		}
+		p = q + eol + 2 + size + 2
+	}
+	return false
 }
 
 var c03Automatic = map[string]bool{"Date": true, "Server": true, "Content-Type": true, "Content-Length": true,
@@ -539,6 +796,9 @@ func c03Oracle(c *c03Case, run *c03Run, res *c03Result) {
 		}
 		res.nresp++
 		res.chunked = res.chunked || w.Chunked
+		if w.Chunked && w.End > w.HeadEnd && (c.Intr != "" || c.BufRel != 0) && !res.straddle {
+			res.straddle = c03FlushInsideChunkSize(out, off+w.HeadEnd, off+w.End, run.conn.Events)
+		}
 		// status and message
 		if w.Status != m.status {
 			add("status-differs", "response %d: status %d on the wire, handler set %d", k+1, w.Status, m.status)
@@ -751,6 +1011,9 @@ func c03Shrink(ss *c03Servers, c c03Case, sym string) c03Case {
 			cand := c
 			cand.P1, cand.P2 = c.P2, canon.P2
 			cand.M1, cand.M2, cand.V1, cand.V2 = c.M2, c.M1, c.V2, c.V1
+			if cand.BufRel != 0 {
+				cand.BufRel = 3 - cand.BufRel
+			}
 			changed = try(cand) || changed
 		}
 		for _, pp := range []*[]string{&c.P1, &c.P2} {
@@ -775,7 +1038,18 @@ func c03Shrink(ss *c03Servers, c c03Case, sym string) c03Case {
 		for _, f := range []func(*c03Case){
 			func(x *c03Case) { x.M1 = canon.M1 }, func(x *c03Case) { x.M2 = canon.M2 },
 			func(x *c03Case) { x.V1 = canon.V1 }, func(x *c03Case) { x.V2 = canon.V2 },
-			func(x *c03Case) { x.Buf = canon.Buf }, func(x *c03Case) { x.Gzip, x.AE = false, "" }, func(x *c03Case) { x.AE = "" }, func(x *c03Case) { x.Pipe = false },
+			func(x *c03Case) { x.Buf, x.BufRel = canon.Buf, 0 }, func(x *c03Case) { x.Intr = "" },
+			func(x *c03Case) { // one representative per family: the first concurrent user, the buffer boundary one byte behind the header / a one-byte buffer
+				if x.Intr != "" {
+					x.Intr = c03IntruderNames[0]
+				}
+			},
+			func(x *c03Case) {
+				if x.BufRel != 0 || x.Buf < 64 {
+					x.Buf = 1
+				}
+			},
+			func(x *c03Case) { x.Gzip, x.AE = false, "" }, func(x *c03Case) { x.AE = "" }, func(x *c03Case) { x.Pipe = false },
 			func(x *c03Case) { x.L = canon.L }, func(x *c03Case) { x.RK = canon.RK },
 			func(x *c03Case) { // HEAD and a bodyless status are the same family: prefer the op
 				if x.M1 == "HEAD" {
@@ -858,8 +1132,13 @@ func c03Sig(sym string, c c03Case) string {
 	if c.V2 != canon.V2 {
 		parts = append(parts, "v2="+c.V2)
 	}
-	if c.Buf != canon.Buf {
+	if c.BufRel != 0 {
+		parts = append(parts, fmt.Sprintf("wbuf=header%d%+d", c.BufRel, c.Buf))
+	} else if c.Buf != canon.Buf {
 		parts = append(parts, fmt.Sprintf("wbuf=%d", c.Buf))
+	}
+	if c.Intr != "" {
+		parts = append(parts, "concurrent="+c.Intr)
 	}
 	if c.Gzip {
 		if c.AE == "" {
@@ -906,8 +1185,11 @@ func c03MinFeatures(c c03Case) []string {
 	if c.V2 != canon.V2 {
 		f = append(f, "v2:"+c.V2)
 	}
-	if c.Buf != canon.Buf {
+	if c.Buf != canon.Buf || c.BufRel != 0 {
 		f = append(f, "wbuf")
+	}
+	if c.Intr != "" {
+		f = append(f, "intr")
 	}
 	if c.Gzip {
 		f = append(f, "gzip")
@@ -978,8 +1260,11 @@ func c03CaseFeatures(c c03Case) map[string][]c03Src {
 	add("v:"+c.V1, c03Src{3, 0, "V1"})
 	add("v:"+c.V2, c03Src{3, 0, "V2"})
 	add("v2:"+c.V2, c03Src{3, 0, "V2"})
-	if c.Buf != 4096 {
+	if c.Buf != 4096 || c.BufRel != 0 {
 		add("wbuf", c03Src{3, 0, "Buf"})
+	}
+	if c.Intr != "" {
+		add("intr", c03Src{3, 0, "Intr"})
 	}
 	if c.Gzip {
 		add("gzip", c03Src{3, 0, "Gzip"})
@@ -1018,7 +1303,9 @@ func c03Without(c c03Case, cf map[string][]c03Src, feats []string) c03Case {
 				case "V2":
 					out.V2 = canon.V2
 				case "Buf":
-					out.Buf = canon.Buf
+					out.Buf, out.BufRel = canon.Buf, 0
+				case "Intr":
+					out.Intr = ""
 				case "Gzip":
 					out.Gzip, out.AE = false, ""
 				case "Pipe":
@@ -1173,6 +1460,16 @@ func TestVerif_C03(t *testing.T) {
 	}
 	maxOps := vrt.Pick(r, 3, 4)
 	envDev := 2 // for programs shorter than maxOps; the longest programs get 1 deviation
+	// part 2 (re-entrant cases): programs of fewer than maxOps2 calls with at most one request/connection slot off
+	// canonical, programs of maxOps2 calls with canonical slots
+	maxOps2 := maxOps - 1
+	r.Set("reentrant_max_ops", maxOps2)
+	type bufSpec struct {
+		rel bool
+		v   int
+	}
+	bufSpecs := []bufSpec{{false, 1}, {false, 2}, {false, 3}, {false, 4}, {false, 5}, {false, 7}, {false, 64},
+		{true, 0}, {true, 1}, {true, 2}, {true, 3}, {true, 4}, {true, 5}, {true, 6}}
 	names := make([]string, len(c03Ops))
 	for i, o := range c03Ops {
 		names[i] = o.name
@@ -1182,7 +1479,15 @@ func TestVerif_C03(t *testing.T) {
 		"WriteBufferSize 4096/64; CompressHandlerBrotliLevel off / on with Accept-Encoding gzip, deflate, br, zstd, 'deflate, gzip;q=0'; delivery one Read per request/pipelined; stream yield L in 100/5/5000; reader flavour io.Reader/*bytes.Reader} "+
 		"enumerated with at most %d slots off their canonical value (1 slot, and only gzip/deflate as content coding, for programs of maximal length); oracle: own RFC 9112 splitter cross-checked with net/http.ReadResponse on every response, compared with a reference model of the program "+
 		"(status, handler-set fields as multisets, body, boundaries, mismatch clause); non-trivial: the (program, environment) produced a response whose framing class "+
-		"(bodyless / chunked / gzip / closing / stream mismatch) is not the canonical fixed-length keep-alive one", maxOps, len(c03Ops), names, envDev))
+		"(bodyless / chunked / gzip / closing / stream mismatch) is not the canonical fixed-length keep-alive one. "+
+		"PART 2 (re-entrant cases: the connection is not alone on the Server): every program of at most %d calls, as answer to request 1 / request 2 / both, x WriteBufferSize in "+
+		"{1,2,3,4,5,7,64 bytes; header block of the response under test + 0..6 bytes, i.e. the write buffer runs full at every byte position of the first chunk-size line / first body bytes} "+
+		"x concurrent pool user in %v (a complete connection of its own on the same Server: chunked streams of 0xabc / 0x543 bytes via io.Reader / *bytes.Reader, trailer, cookie; "+
+		"gzip-compressed 404 with cookie), which is served from start to end INSIDE EVERY Write call the server makes on the connection under test (before the written bytes are taken over: a slow peer), "+
+		"so every object the response writer has returned to a pool too early, or shares, is taken and overwritten by somebody else at every point where the writer calls out; "+
+		"programs shorter than %d calls additionally with one of {method1, method2, version1, version2, gzip, pipelined, L, reader flavour} off canonical; "+
+		"oracle: the same reference comparison for the connection under test, and the concurrent connection's responses must be what they are when it is served alone "+
+		"(byte comparison with Date masked, full oracle on any difference)", maxOps, len(c03Ops), names, envDev, maxOps2, c03IntruderNames, maxOps2))
 	r.Assume("net/http.ReadResponse and the harness's own RFC 9112 splitter as independent HTTP/1.1 parsers (they must agree on every response)",
 		"Response.SkipBody is read as documented ('use it for writing HEAD responses'): a response built with it is parsed like a response to HEAD",
 		"automatic fields (Date, Server, Content-Type default, Content-Length, Transfer-Encoding, Connection, Content-Encoding, Vary, Trailer) are outside the header comparison; trailer fields are compared only on chunked responses",
@@ -1222,27 +1527,114 @@ func TestVerif_C03(t *testing.T) {
 	})
 	r.Set("programs", len(progs))
 	r.Set("environments", len(envs))
-	const block = 32
-	nblocks := (len(progs) + block - 1) / block
 	var stop bool
 	var smu sync.Mutex
-	r.Par(nblocks, func(bi int) {
+	stopped := func() bool {
 		smu.Lock()
-		st := stop
+		defer smu.Unlock()
+		return stop
+	}
+	expire := func(part string, bi, nblocks int) {
+		smu.Lock()
+		if !stop {
+			stop = true
+			r.NotExhaustive(fmt.Sprintf("time budget reached at %s program block %d of %d", part, bi, nblocks))
+		}
 		smu.Unlock()
-		if st || rp.toolErr() != "" {
+	}
+	// counters of one block of programs
+	type counters struct {
+		n                                                                int
+		mismatch, chunked, nobody, gzip, closing, two, reent, intr, strd int64
+	}
+	runCase := func(ss *c03Servers, c c03Case, k *counters, sample bool) {
+		res := c03Exec(ss, &c)
+		k.n++
+		if len(res.finds) > 0 || res.toolErr != "" {
+			rp.report(ss, c, res)
+		}
+		nt := false
+		if res.mismatch {
+			k.mismatch++
+			nt = true
+		}
+		if res.chunked {
+			k.chunked++
+			nt = true
+		}
+		if res.nobody {
+			k.nobody++
+			nt = true
+		}
+		if res.gzipped {
+			k.gzip++
+			nt = true
+		}
+		if res.close {
+			k.closing++
+			nt = true
+		}
+		if res.nresp == 2 {
+			k.two++
+		}
+		if res.intrusions > 0 {
+			k.reent++
+			k.intr += int64(res.intrusions)
+		}
+		if res.straddle {
+			k.strd++
+		}
+		if nt {
+			r.NontrivialHash(c.hash())
+		}
+		if sample && r.WantSample() {
+			r.Sample(map[string]any{"case": c, "responses_parsed": res.nresp, "stream_mismatch": res.mismatch, "findings": len(res.finds),
+				"concurrent_connections_served_inside_call_outs": res.intrusions, "flush_inside_chunk_size_line": res.straddle})
+		}
+	}
+	flush := func(k *counters) {
+		r.Eval(k.n)
+		r.Add("cases_with_stream_size_mismatch", k.mismatch)
+		r.Add("cases_with_chunked_response", k.chunked)
+		r.Add("cases_with_bodyless_response", k.nobody)
+		r.Add("cases_with_gzip_response", k.gzip)
+		r.Add("cases_with_closing_response", k.closing)
+		r.Add("cases_with_two_parsed_responses", k.two)
+		r.Add("reentrant_cases", k.reent)
+		r.Add("reentrant_concurrent_connections_served", k.intr)
+		r.Add("reentrant_cases_flush_inside_chunk_size_line", k.strd)
+	}
+	progNames := func(p []int) (prog []string, hasStream bool) {
+		prog = make([]string, len(p))
+		for i, o := range p {
+			prog[i] = c03Ops[o].name
+			hasStream = hasStream || c03IsStreamOp(prog[i])
+		}
+		return prog, hasStream
+	}
+	placeProg := func(c *c03Case, where string, prog []string) {
+		switch where {
+		case "first":
+			c.P1 = prog
+		case "second":
+			c.P1, c.P2 = []string{"body-set"}, prog
+		case "both":
+			c.P1, c.P2 = prog, prog
+		}
+	}
+	const block = 32
+
+	// ---- part 1: the connection alone
+	t0 := time.Now() // reporting only
+	nblocks := (len(progs) + block - 1) / block
+	r.Par(nblocks, func(bi int) {
+		if stopped() || rp.toolErr() != "" {
 			return
 		}
 		ss := &c03Servers{}
-		n := 0
-		var cMismatch, cChunked, cNoBody, cGzip, cClose, cTwo int64
+		var k counters
 		for pi := bi * block; pi < (bi+1)*block && pi < len(progs); pi++ {
-			prog := make([]string, len(progs[pi]))
-			hasStream := false
-			for i, o := range progs[pi] {
-				prog[i] = c03Ops[o].name
-				hasStream = hasStream || c03IsStreamOp(prog[i])
-			}
+			prog, hasStream := progNames(progs[pi])
 			for _, e := range envs {
 				x := e.idx
 				if len(prog) == maxOps && (e.dev > 1 || x[6] > 2) {
@@ -1252,70 +1644,85 @@ func TestVerif_C03(t *testing.T) {
 					continue // stream length / reader flavour are irrelevant without a stream op: same case as canonical
 				}
 				c := c03Canonical()
-				switch place[x[0]] {
-				case "first":
-					c.P1 = prog
-				case "second":
-					c.P1, c.P2 = []string{"body-set"}, prog
-				case "both":
-					c.P1, c.P2 = prog, prog
-				}
+				placeProg(&c, place[x[0]], prog)
 				c.M1, c.V1, c.M2, c.V2 = meth[x[1]], vers[x[2]], meth[x[3]], vers[x[4]]
 				c.Buf, c.Gzip, c.Pipe, c.L, c.RK = bufs[x[5]], x[6] != 0, x[7] == 1, Ls[x[8]], rks[x[9]]
 				c.AE = aes[x[6]]
-				res := c03Exec(ss, &c)
-				n++
-				if len(res.finds) > 0 || res.toolErr != "" {
-					rp.report(ss, c, res)
-				}
-				nt := false
-				if res.mismatch {
-					cMismatch++
-					nt = true
-				}
-				if res.chunked {
-					cChunked++
-					nt = true
-				}
-				if res.nobody {
-					cNoBody++
-					nt = true
-				}
-				if res.gzipped {
-					cGzip++
-					nt = true
-				}
-				if res.close {
-					cClose++
-					nt = true
-				}
-				if res.nresp == 2 {
-					cTwo++
-				}
-				if nt {
-					r.NontrivialHash(c.hash())
-				}
-				if pi%977 == 0 && x[0] == 0 && x[5] == 1 && r.WantSample() {
-					r.Sample(map[string]any{"case": c, "responses_parsed": res.nresp, "stream_mismatch": res.mismatch, "findings": len(res.finds)})
-				}
+				runCase(ss, c, &k, pi%977 == 0 && x[0] == 0 && x[5] == 1)
 			}
 			if r.Expired() {
-				smu.Lock()
-				if !stop {
-					stop = true
-					r.NotExhaustive(fmt.Sprintf("time budget reached at program block %d of %d", bi, nblocks))
-				}
-				smu.Unlock()
+				expire("part 1", bi, nblocks)
 				break
 			}
 		}
-		r.Eval(n)
-		r.Add("cases_with_stream_size_mismatch", cMismatch)
-		r.Add("cases_with_chunked_response", cChunked)
-		r.Add("cases_with_bodyless_response", cNoBody)
-		r.Add("cases_with_gzip_response", cGzip)
-		r.Add("cases_with_closing_response", cClose)
-		r.Add("cases_with_two_parsed_responses", cTwo)
+		flush(&k)
+	})
+
+	r.Set("part1_wall_s", int(time.Since(t0).Seconds()))
+
+	// ---- part 2: somebody else is served inside every call-out, write buffer boundary at every position around the
+	// end of the header block / tiny write buffers
+	var progs2 [][]int
+	for _, p := range progs {
+		if len(p) <= maxOps2 {
+			progs2 = append(progs2, p)
+		}
+	}
+	var envs2 []env
+	seqx.Product([]int{3, 3, 3, 3, 2, 2, 3, 2}, 1, func(idx []int) bool { // M1 V1 M2 V2 gzip pipe L RK
+		d := 0
+		for _, v := range idx {
+			if v != 0 {
+				d++
+			}
+		}
+		envs2 = append(envs2, env{append([]int(nil), idx...), d})
+		return true
+	})
+	r.Set("reentrant_programs", len(progs2))
+	r.Set("reentrant_environments", len(envs2)*len(place)*len(bufSpecs)*len(c03IntruderNames))
+	nblocks2 := (len(progs2) + block - 1) / block
+	r.Par(nblocks2, func(bi int) {
+		if stopped() || rp.toolErr() != "" {
+			return
+		}
+		ss := &c03Servers{}
+		var k counters
+		for pi := bi * block; pi < (bi+1)*block && pi < len(progs2); pi++ {
+			prog, hasStream := progNames(progs2[pi])
+			for _, e := range envs2 {
+				x := e.idx
+				if len(prog) == maxOps2 && e.dev > 0 {
+					continue // the longest programs: canonical requests
+				}
+				if !hasStream && (x[6] != 0 || x[7] != 0) {
+					continue
+				}
+				for wi, where := range place {
+					for si, bs := range bufSpecs {
+						for ii, in := range c03IntruderNames {
+							c := c03Canonical()
+							placeProg(&c, where, prog)
+							c.M1, c.V1, c.M2, c.V2 = meth[x[0]], vers[x[1]], meth[x[2]], vers[x[3]]
+							c.Gzip, c.Pipe, c.L, c.RK = x[4] != 0, x[5] == 1, Ls[x[6]], rks[x[7]]
+							c.Buf, c.Intr = bs.v, in
+							if bs.rel {
+								c.BufRel = 1
+								if where == "second" {
+									c.BufRel = 2
+								}
+							}
+							runCase(ss, c, &k, pi%211 == 0 && e.dev == 0 && wi == 0 && ii == 0 && (si == 0 || si == len(bufSpecs)-5))
+						}
+					}
+				}
+			}
+			if r.Expired() {
+				expire("part 2", bi, nblocks2)
+				break
+			}
+		}
+		flush(&k)
 	})
 	r.Set("failing_cases_shrunk", rp.shrinks)
 	if rp.shrinks > c03MaxShrinks {
